@@ -51,7 +51,12 @@ pub fn enum_properties_inner(ast: &DeriveInput) -> syn::Result<TokenStream> {
                 Lit::Str(..) => PropertyType::String,
                 Lit::Bool(..) => PropertyType::Bool,
                 Lit::Int(..) => PropertyType::Integer,
-                _ => todo!("TODO"),
+                other => {
+                    return Err(syn::Error::new_spanned(
+                        other,
+                        "unsupported literal type for a property: only string, integer and bool literals are supported",
+                    ))
+                }
             };
 
             arms.get_mut(&property_type)
